@@ -89,7 +89,9 @@ def cases(ctx):
                     elif placement == "middle":
                         base_off = win_lo + 0x2345
                     else:
-                        base_off = 0x10000 - span
+                        # the whole layout, target byte included, ends with the bank (a forward target is the byte after
+                        # the padding: keep it inside the bank)
+                        base_off = 0x10000 - span - 1
                     store = (bank << 16) | (win_lo + 0x100)
                     run_base = {"none": (bank << 16) | base_off,
                                 "rom": ((bank + 2) << 16) | base_off,
